@@ -3,7 +3,9 @@
 // Linked with -Wl,--wrap=pthread_create,--wrap=pthread_attr_setstacksize,--wrap=pthread_attr_init,
 //                  --wrap=pthread_attr_destroy,--wrap=pthread_join
 //   S <size> <r_init> <r_set> <r_create>    scripted: the five pthread calls are replaced by a fake that records
-//                                           the call sequence and returns the given results
+//                                           the call sequence and returns the given results; r_create may be a
+//                                           comma list: result of the 1st, 2nd, ... pthread_create call (the last
+//                                           one repeats)
 //   J <r_join>                              scripted pthread_join result
 //   T <size> <n> <delay_us> <f|r>           real: n concurrent threads with the requested stack size, joined
 //                                           forwards or in reverse; the wrappers pass through and record
@@ -47,7 +49,9 @@ static pthread_t main_thread;
 static int       fake;      // scripted mode: no real calls
 static int       recording; // record calls made by the main thread
 static char      calls[1024];
-static int       r_init, r_set, r_create, r_join;
+static int       r_init, r_set, r_join;
+static int       r_creates[8];
+static int       n_creates, create_calls;
 
 #define MAXATTR 8
 static const void* attr_ptr[MAXATTR];
@@ -153,13 +157,15 @@ int __wrap_pthread_create(pthread_t* t, const pthread_attr_t* a, void* (*fn)(voi
 {
   if (fake) {
     rec_create(a, fn, arg);
-    if (!r_create) {
+    const int r = r_creates[create_calls < n_creates ? create_calls : n_creates - 1];
+    ++create_calls;
+    if (!r) {
       ++fake_started;
-      fake_stack = a ? attr_stack[attr_id(a)] : FAKE_DEFAULT_STACK;
+      fake_stack = a ? attr_stack[attr_id(a)] : FAKE_DEFAULT_STACK; // the stack THIS call's attributes carry
       *t         = pthread_self();
     }
     errno = 0;
-    return r_create;
+    return r;
   }
   if (recording && on_main()) {
     rec_create(a, fn, arg);
@@ -203,7 +209,18 @@ static void case_scripted(char** tok)
   ZixThread    th;
   r_init   = atoi(tok[2]);
   r_set    = atoi(tok[3]);
-  r_create = atoi(tok[4]);
+  n_creates = create_calls = 0;
+  {
+    char* copy = strdup(tok[4]);
+    char* save = NULL;
+    for (char* t = strtok_r(copy, ",", &save); t && n_creates < 8; t = strtok_r(NULL, ",", &save)) {
+      r_creates[n_creates++] = atoi(t);
+    }
+    free(copy);
+    if (!n_creates) {
+      r_creates[n_creates++] = 0;
+    }
+  }
   reset_rec();
   fake_started = 0;
   fake_stack   = 0;
